@@ -4,7 +4,7 @@
 set -u
 patch="$1"; shift
 if [ -n "$(git -C /repo status --porcelain --untracked-files=no)" ]; then echo "REFUSING: /repo has local modifications"; exit 3; fi
-restore() { git -C /verif clean -fdq -- replays >/dev/null 2>&1; git -C /repo checkout -- . ; git -C /repo clean -fdq -- src >/dev/null 2>&1; }
+restore() { git -C /verif ls-files --others -- replays | grep -v "/F[0-9]" | (cd /verif && xargs -r rm -f) >/dev/null 2>&1; git -C /repo checkout -- . ; git -C /repo clean -fdq -- src >/dev/null 2>&1; }
 trap restore EXIT
 if ! git -C /repo apply "$patch"; then echo "PATCH DOES NOT APPLY"; exit 3; fi
 for c in "$@"; do
